@@ -19,7 +19,8 @@ LEVEL = 'exploration'
 RULE = ('programs: scope-shape generator (nested function declarations / named and anonymous expressions, parameters '
         'shadowing outer names, var hoisted after use, var re-declaring a catch parameter, closures over grandparents, '
         'free names equal to the first names the generator hands out, labels, accessor bodies; scopes with up to 3000 '
-        'locals so that two- and three-letter names incl. do/if/in/for/new/var/try occur), Annex A derivations and the '
+        'locals so that two- and three-letter names incl. do/if/in/for/new/var/try occur, with catch clauses, nested '
+        'functions and a named function expression inside the crowded scope, which is a function or the global one), Annex A derivations and the '
         'corpus, all without with/eval; configurations {obfuscate_globals} x {shadow_funcname} x {minify, '
         'minify+drop_semi, Unparser(obfuscate, indent)}; every second case on a printer object that has already printed another tree; a case = (program, configuration); non-trivial = at least one '
         'binding was renamed; distinct by that pair.')
